@@ -43,6 +43,8 @@ def run(ctx, rep):
     rep.run(RA.rule_mutate_only_fresh, ctx, rep, "W5", "gtwrap/template_instantiator", P1_EXEMPT, min_sites=20)
     rep.run(RP.rule_submodule_once, ctx, rep, "W6")
     rep.run(RN.rule_typedef_yields_one_instantiation, ctx, rep, "W18")
+    # W19: the types the bindings are printed with are the instantiated ones (= C02 S14; W5 defers to this run where it can be made)
+    rep.run(RN.rule_instantiate_type_by_evaluation, ctx, rep, "W19", part="substitution")
     rep.run(RP.rule_boost_export_name, ctx, rep, "W7")
     rep.run(RI.rule_cpp_spelling_not_flattened, ctx, rep, "W8")
     rep.run(RP.rule_value_slot_never_empty, ctx, rep, "W9")
